@@ -48,7 +48,8 @@ def pick_model_params(rng, kind, simple=False):
     elif r < 0.6:
         p["tau"] = 0.0
     elif r < 0.8:
-        p["tau"] = beta * rng.choice([1e-6, 1e-3, 0.1, 1.0])
+        # incl. values so small that adding tau^2 is a no-op in doubles for the larger sigmas of a game and not for the smaller
+        p["tau"] = beta * rng.choice([1e-6, 1e-3, 0.1, 1.0, 1e-9, 2.4e-9, 1e-8, 1e-7])
     else:
         p["tau"] = beta * rng.random()
     if rng.random() < 0.25:
@@ -317,12 +318,22 @@ def extremes_campaign(sess, rng, count, kinds=KINDS, ops=("rate", "win", "draw",
             kappa = min(kappa, 1e-2 * math.sqrt(2.0) * beta)
         tau = rng.choice([0.0, 1e-9 * beta, beta / 50.0, beta])
         g = rng.choice(["default", "default", "one", "big", "zero"])
+        scenario = rng.random()
+        if 0.24 <= scenario < 0.36:     # variance contrast without dynamics (see below)
+            tau = rng.choice([0.0, 0.0, 1e-9 * beta])
+            g = rng.choice(["default", "default", "default", "one"])
         sess.reset()
         mh = sess.model(kind, gamma=g, mu=6 * beta, sigma=2 * beta, beta=beta, kappa=kappa, tau=tau, limit_sigma=rng.random() < 0.2)
         n = rng.choice([2, 2, 3, 4, 8])
         size = rng.choice([1, 2, 2, 4, 8, 16])
         sizes = [size if rng.random() < 0.7 else rng.choice([1, 2, 3, 16]) for _i in range(n)]
-        scenario = rng.random()
+        if 0.24 <= scenario < 0.36:
+            # the largest contrast of information the domain allows: a settled solo player (sigma 1e-4 beta) against a team of
+            # 3-8 newcomers (sigma 10 beta each), nothing added by tau: the settled side's variance share in c_iq^2 is ~1e-11
+            n = rng.choice([2, 2, 3])
+            sizes = [1, rng.choice([3, 4, 8])] + [rng.choice([1, 2])] * (n - 2)
+            if rng.random() < 0.5:
+                sizes[0], sizes[1] = sizes[1], sizes[0]
         if scenario < 0.12:      # largest exponent of the domain: big teams at opposite ends, hardly any uncertainty
             n = rng.choice([2, 2, 3])
             sizes = [rng.choice([13, 14, 16, 16]) for _i in range(n)]
@@ -342,10 +353,13 @@ def extremes_campaign(sess, rng, count, kinds=KINDS, ops=("rate", "win", "draw",
             elif scenario < 0.24:
                 pat = "zero"
                 sgc = rng.choice([8.0, 10.0, 10.0]) if ti == 0 else rng.choice([1e-4, 0.01, 0.1])
+            elif scenario < 0.36:
+                pat = rng.choice(["zero", "zero", "hi", "lo"])
+                sgc = rng.choice([1e-4, 1e-4, 3e-4]) if sz == 1 else rng.choice([10.0, 10.0, 9.0])
             team = []
             for _j in range(sz):
                 mu = {"hi": 20 * beta * u, "lo": -20 * beta * u, "zero": 0.0, "mixed": rng.choice([-20, 20, 0]) * beta}[pat]
-                sg = sgc * beta if rng.random() < 0.8 else pick_sigma(rng, beta, tau > 0)
+                sg = sgc * beta if (rng.random() < 0.8 or 0.24 <= scenario < 0.36) else pick_sigma(rng, beta, tau > 0)
                 team.append(mh.m.rating(mu, sg))
             teams.append(team)
             tot.append(sum(p.mu for p in team))
@@ -675,14 +689,16 @@ def perm_groups(sess, rng, count, prop, ops=("rate",), kinds=KINDS, max_teams=6,
                 warm = [[(mu + rng.choice([-1.0, 0.5, 2.0]) * beta, sg * rng.choice([0.5, 1.0, 2.0])) for (mu, sg) in tv] for tv in vals]
                 warm = [[(max(min(mu, 20 * beta), -20 * beta), min(max(sg, 1e-4 * beta), 10 * beta)) for (mu, sg) in tv] for tv in warm]
                 objs = make_teams(mh, warm)
+                mine = [list(t) for t in objs]       # the driver's own record of who is where: the lists it hands out may come back changed
                 sess.predict(op, mh, objs)
+                objs = mine
                 for tv, to in zip(vals, objs):
                     for (mu, sg), o in zip(tv, to):
                         sess.assign(o, mu, sg)
             if op == "rate":
                 sess.rate(mh, make_teams(mh, vals), group=gid, role="base", **okw)
             else:
-                sess.predict(op, mh, objs if live else make_teams(mh, vals), group=gid, role="base")
+                sess.predict(op, mh, [list(t) for t in objs] if live else make_teams(mh, vals), group=gid, role="base")
             for tp in tps:
                 mps = [random_perm(rng, shape[tp[k] - 1]) if rng.random() < 0.7 else list(range(1, shape[tp[k] - 1] + 1)) for k in range(n)]
                 pv = [[vals[tp[k] - 1][mps[k][l] - 1] for l in range(len(mps[k]))] for k in range(n)]
@@ -775,6 +791,8 @@ def effopts_groups(sess, rng, count, kinds=KINDS):
         okw, _ = encode_order(rng, weak_order(rng, len(shape)))
         # the other parts of the step under the same options: a callback (floor active under `big`), the floor under the default gamma
         g = rng.choice(["default", "default", "big", "probe", "one"])
+        if rng.random() < 0.2:
+            okw = {}            # the order the teams are listed in: no ranks, no scores
         if rng.random() < 0.15:
             vals, fr = floor_game(rng, beta)
             okw = {"ranks": fr}
@@ -1433,9 +1451,21 @@ def malformed_campaign(sess, rng, count, kinds=KINDS, ops=("rate", "win", "draw"
                         s2 = list(ranks0)
                         s2[i] = numlike_values(ranks0[jtwin])[k3][1]
                         sess.rate(mh, teams, **{sel: s2})
-            for variant in ["short", "long", "both", "both_bad", "bools", "negs", "zeros", "floats", "mixed"]:
+            for variant in ["short", "long", "both", "both_bad", "bools", "negs", "zeros", "floats", "mixed",
+                            "other_empty", "other_none", "both_empty", "other_empty_self_bad", "self_empty_other_bad"]:
                 mh, fm, teams = fresh()
-                if variant == "short":
+                other = "scores" if sel == "ranks" else "ranks"
+                if variant == "other_empty":        # an empty list is "not given": beside a given selector ...
+                    kw = {sel: list(ranks0), other: []}
+                elif variant == "other_none":
+                    kw = {sel: list(ranks0), other: None}
+                elif variant == "both_empty":       # ... beside another empty one ...
+                    kw = {sel: [], other: []}
+                elif variant == "other_empty_self_bad":   # ... and it does not excuse the other selector's faults
+                    kw = {sel: list(ranks0) + ["x"], other: []}
+                elif variant == "self_empty_other_bad":
+                    kw = {sel: [], other: (1, 2)}
+                elif variant == "short":
                     kw = {sel: list(ranks0)[:-1]}
                 elif variant == "long":
                     kw = {sel: list(ranks0) + [1]}
